@@ -649,7 +649,15 @@ func c16R6(p *engine.Prog, r *engine.Report) {
 func c16R7(p *engine.Prog, r *engine.Report) {
 	if f := mustFunc(p, r, "core/ceremony", "ValidationCeremony.calculateCeremonyCandidates"); f != nil {
 		n := 0
-		for _, b := range f.Blocks {
+		// the function and the same-package helpers it calls directly (the fill may be extracted)
+		var blocks []*ssa.BasicBlock
+		blocks = append(blocks, f.Blocks...)
+		for _, c := range engine.Calls(f) {
+			if h := c.Common().StaticCallee(); h != nil && h.Blocks != nil && h.Pkg == f.Pkg && h != f {
+				blocks = append(blocks, h.Blocks...)
+			}
+		}
+		for _, b := range blocks {
 			for _, ins := range b.Instrs {
 				mu, ok := ins.(*ssa.MapUpdate)
 				if !ok {
